@@ -78,6 +78,17 @@ ENGINES["delsim"] = {
                               "account / space-state components; sync status = no-op; object-sync dispatch replaced by the event loop"]},
 }
 
+ENGINES["byzsim"] = {
+    "serves": ["C11"],
+    "kind": "a byzantine peer as a fault kind: a live victim (sync tree over any-store, ACL views of several accounts, ldiff index, secure services, rpc encoding wrapper, pubsub engine) receives structure-aware corruptions of the valid traffic an honest peer produces for the state the victim is in, interleaved with honest progress",
+    "real_vs_stub": {"real": ["objecttree (AddRawChanges, ValidateRawTree, change builder/validator, tree builder)", "synctree handlers (HandleHeadUpdate, HandleStreamRequest, HandleResponse) with request factory and response producer",
+                              "acl list (AddRawRecord(s), ValidateRawRecord) in owner/writer/reader views, record builder for the honest history (adds, permission changes, removals with key rotation, invites, join requests, accepts, read-key changes)",
+                              "innerstorage.KeyValueFromProto", "headsync.HandleRangeRequest + app/ldiff Diff", "secureservice.HandshakeInbound/Outbound (both credential checkers, handshake frame reader)",
+                              "spacepayloads validators", "util/crypto decoders and decrypters", "net/rpc/encoding (proto and snappy wrappers)", "pubsub.HandleMessage", "spacestorage, any-store on tmpfs"],
+                     "stub": ["transport: hostile bytes are handed to the entry point directly (sync client records what the victim would send); the honest peer is a second real node",
+                              "ldiff remote that lies (result counts, hashes, element lists, result list lengths chosen by the seed)", "scripted byte stream for handshakes"]},
+}
+
 PROPS = {
     "C01": {
         "engine": "treesim",
@@ -206,6 +217,23 @@ PROPS = {
         "level_text": "Operations and pre-states are sampled from a seed; for each sampled operation the storage boundaries are enumerated completely (operations crossing more than 60 boundaries - the 500+ change batch - get 3 first, 3 last and 5 seeded boundaries instead): one crash image before and after every call and one injected error (single or sticky) at every call, each judged by the all-or-nothing, structural and retry oracles.",
         "level_note": "real storage stack down to SQLite; power-loss semantics not modelled; boundaries = calls through the anystore interfaces",
         "expected_probes": ["image=before", "image=after", "operation-reported-the-error"],
+    },
+    "C11": {
+        "engine": "byzsim",
+        "level": "exploration",
+        "budget": {"quick": 60, "thorough": 900},
+        "rule": "one run = a random non-empty subset of 9 entry-point families (tree, acl, kv, diff, handshake, payload, crypto, encoding, pubsub) and 20-120 steps; a step is honest progress (the honest peer edits the tree incl. snapshots and encrypted content; the owner or a joining account appends the next valid ACL record; index grows) or one hostile delivery guarded by the three oracles. "
+                "Hostile inputs are derived from the valid message for the victim's current state by a type-independent protobuf wire mutator (field removed / duplicated / reordered / renumbered, wire type changed, varint zero / extreme / bit flip, byte string emptied / shortened to 1-40 bytes / replaced by 1,31,32,33,64,200 random bytes, length prefix edited to +-1, +100, 0, 2^20, 2^31, 2^32-1, 2^62, truncation anywhere, field spliced from another message of the same world, raw bit flips / random bytes / duplicated segments) "
+                "applied at every nesting level: sync envelope, tree message, change envelope, signed change content (then signed again by owner, writer or reader so that it passes the signature check), ACL record envelope, signed record, ACL content incl. encrypted read keys and invite keys (signed again by owner or member), key-value envelope and signed inner value, head-sync request, handshake frame payloads and headers (types 0-4, sizes 0..2^32-1, cut frames), space header / ACL root / settings root, key and ciphertext blobs, encoded rpc frames incl. snappy blocks that claim 2^20..2^32-1 decoded bytes, pubsub frames; "
+                "plus reference edits on changes (0-3 arbitrary parents incl. trimmed, unknown and odd ids, duplicated parents, re-pointed snapshot base, flipped snapshot flag, replaced ACL head / read key id, attachment to the root after snapshots) and on records (previous id replaced), arbitrary heads and snapshot paths, a whole hostile tree offered for creation, and an ldiff remote that lies. "
+                "Oracles per delivery: no panic (recover; panics in goroutines of the code under test kill the worker and are classified by the driver), the call returns (real-time watchdog outside the bubble, 20 s; fake-clock deadlines for blocking reads; 5000-request and 10000-response caps), bytes allocated during the call <= 48 MiB + 512 x input size (runtime.MemStats.TotalAlloc delta). evaluations = guarded deliveries.",
+        "assumptions": COMMON_ASSUMPTIONS + ["the coverage-guided byte-string half of the quantifier is fuzzing and outside this technique: inputs here are corruptions of traffic the simulated system itself produced in states it reached",
+                                             "accepted hostile input is not judged here (C02-C04, C12, C14, C17 decide what may be accepted); an ACL view that accepts a hostile record is rebuilt from the authoritative history",
+                                             "allocation is measured process-wide between two points of a single-goroutine call; constants are generous so that only length-field-driven allocation trips the bound"],
+        "technique": "deterministic simulation: byzantine-peer fault injection - seeded structure-aware corruption (re-signed where needed) of valid traffic delivered to the real entry points of a live victim in the state the simulation reached; panic, non-termination (real-time watchdog) and allocation-bound oracles per delivery",
+        "level_text": "Seeded exploration of (victim state x entry point x corruption) with honest progress in between; every delivery runs under panic, hang and allocation oracles.",
+        "level_note": "all parsing/validating code is real; the honest peer is a second real node; hostile bytes are handed to the entry points directly",
+        "expected_probes": [],
     },
     "C12": {
         "engine": "kvsim",
